@@ -20,6 +20,7 @@ import (
 	"github.com/influxdata/influxdb/monitor"
 	"github.com/influxdata/influxdb/pkg/estimator"
 	"github.com/influxdata/influxdb/pkg/tracing"
+	"github.com/influxdata/influxdb/pkg/verifhook"
 	"github.com/influxdata/influxdb/query"
 	"github.com/influxdata/influxdb/services/meta"
 	"github.com/influxdata/influxdb/storage/reads"
@@ -1202,6 +1203,8 @@ func (s *Service) backupRemoteShard(host string, shardID uint64, since time.Time
 		conn.Close()
 		return nil, err
 	}
+
+	conn = verifhook.WrapConn(^uint64(0), conn)
 
 	// Return the connection which will stream the rest of the backup.
 	return conn, nil
